@@ -32,8 +32,12 @@ func TestMain(m *testing.M) {
 			"2-4 emitters of mostly one type, half of them disagreeing, with Emitter creation / Close a quarter of all actions), "+
 			"1-5 subscriptions (single type / several types / wildcard; BufSize 0,1,2,16 or default; reading eagerly, or only when granted N reads / "+
 			"resumed), 1-3 emit goroutines, and steps at increasing virtual instants; all actions of a step (Emit bursts, Subscribe, "+
-			"Subscription.Close (also twice), resume/grant reads, Emitter creation/Close (also twice), calls the bus has to refuse) start together and race "+
-			"for real. Refused calls (in 40 % of the schedules, each any number of times, also during the final round): Subscribe with an offending element at a "+
+			"Subscription.Close (also twice), resume/grant reads, Emitter creation/Close (also twice), calls the bus has to refuse, read-only queries) start together and race "+
+			"for real. Read-only queries (about 1 action in 10, and in a quarter of the final rounds): Bus.GetAllEventTypes, alone or followed by Name / Out of a generated subscription that exists by then; "+
+			"they are scheduled at any instant, in particular next to Subscribe / Close / Emitter calls while an Emit of an earlier step is stalled on a slow subscriber and stays stalled past the step "+
+			"(labels query:while-emit-blocked...; TestBlockedEmitEnumerated makes them during every enumerated stall, alone, next to the Close of an unrelated type's only subscription and next to "+
+			"Subscribe + Emitter of an unrelated type); their answers are not judged (the statement says nothing about them), a query changes nothing, so every oracle below applies to the rest of the "+
+			"history unchanged, and the query itself has to have returned at the next quiescence point like every call other than a justified blocked Emit. Refused calls (in 40 % of the schedules, each any number of times, also during the final round): Subscribe with an offending element at a "+
 			"generated position of a generated list of 0-3 well-formed types (a non-pointer: int, event value instead of pointer, string, empty struct; or the "+
 			"wildcard inside a list), Subscribe / Emitter with an option that returns an error (before or after BufSize / Stateful), Emitter for a non-pointer or "+
 			"for the wildcard; they create no subscriber, so the oracles below apply to the rest of the history unchanged. The case ends with "+
@@ -55,6 +59,7 @@ func TestMain(m *testing.M) {
 		"one goroutine at a time uses a given emitter for a burst only when no other burst of it is unfinished on the same emit goroutine; order is asserted between events of one emitter whose Emit calls did not overlap",
 		"a retained event is demanded only when, by the call stamps alone, the type was in use without interruption (a chain of overlapping lifetimes of emitters returned and not yet asked to close, and of typed subscriptions) from the moment the Stateful emitter that declared it was returned, over the Emit of the event, until Subscribe returned: the bus documents that a type's state lives as long as it has emitters or subscribers; an Emitter call that the bus refuses declares nothing",
 		"a bubble that cannot reach quiescence within the harness watchdog is reported as a violation (mutex deadlock of the bus)",
+		"a read-only query (Bus.GetAllEventTypes, Subscription.Name / Out) is planned as a call that never waits for a subscriber: it is scheduled whatever is stalled and has to have returned at the next quiescence point; a query that waits behind a stalled Emit holding a lock that Subscribe / Close / Emitter need is what 'closing concurrently with emits never deadlocks' rules out (inside a bubble it shows up as a bubble that cannot reach quiescence)",
 		"refused calls are the ones the API documents as errors (element that is not a pointer, wildcard inside a list, option error, Emitter for a non-pointer / the wildcard); nil elements (the bus panics on them) and lists naming one type twice (accepted by the bus) are not generated; a refused call is planned as a transient user of the locks the accepted call would take",
 	)
 	hx.Main(m)
@@ -70,7 +75,7 @@ type profile struct {
 	minActs     int
 	maxActs     int
 	gaps        []int // candidate gaps (ms)
-	kinds       []int // weights: emit sub closeSub resume grant closeEm newEm bad
+	kinds       []int // weights: emit sub closeSub resume grant closeEm newEm bad query
 	badPct      int   // share of scenarios that contain calls the bus has to refuse
 	eagerPct    int
 	bufs        []int
@@ -82,19 +87,19 @@ type profile struct {
 	lateEmsPct  int // chance that only the first emitter exists before step 0 (the others are opened by steps of the history)
 }
 
-var kindNames = []string{"emit", "sub", "closeSub", "resume", "grant", "closeEm", "newEm", "bad"}
+var kindNames = []string{"emit", "sub", "closeSub", "resume", "grant", "closeEm", "newEm", "bad", "query"}
 
 var (
 	profGeneral = profile{name: "general", maxSteps: 6, minActs: 1, maxActs: 5, gaps: []int{0, 1, 1, 600, 1100},
-		kinds: []int{42, 11, 10, 7, 10, 7, 6, 12}, badPct: 40, eagerPct: 45, bufs: []int{0, 0, 1, 1, 2, 2, 16, -1}, bursts: []int{1, 1, 2, 3, 3, 5, 18}, disagreePct: 15}
+		kinds: []int{42, 11, 10, 7, 10, 7, 6, 12, 9}, badPct: 40, eagerPct: 45, bufs: []int{0, 0, 1, 1, 2, 2, 16, -1}, bursts: []int{1, 1, 2, 3, 3, 5, 18}, disagreePct: 15}
 	profRaces = profile{name: "races", maxSteps: 3, minActs: 3, maxActs: 9, gaps: []int{0, 0, 1},
-		kinds: []int{40, 18, 16, 4, 4, 9, 9, 14}, badPct: 40, eagerPct: 75, bufs: []int{0, 1, 2, 16, 16, -1}, bursts: []int{1, 2, 3, 4, 6}, disagreePct: 15}
+		kinds: []int{40, 18, 16, 4, 4, 9, 9, 14, 10}, badPct: 40, eagerPct: 75, bufs: []int{0, 1, 2, 16, 16, -1}, bursts: []int{1, 2, 3, 4, 6}, disagreePct: 15}
 	profStateful = profile{name: "stateful", allStateful: true, maxSteps: 5, minActs: 1, maxActs: 5, gaps: []int{0, 1, 1, 1100},
-		kinds: []int{45, 22, 8, 6, 8, 5, 6, 12}, badPct: 40, eagerPct: 60, bufs: []int{0, 1, 2, 2, 16, -1}, bursts: []int{1, 1, 2, 3}, disagreePct: 15}
+		kinds: []int{45, 22, 8, 6, 8, 5, 6, 12, 8}, badPct: 40, eagerPct: 60, bufs: []int{0, 1, 2, 2, 16, -1}, bursts: []int{1, 1, 2, 3}, disagreePct: 15}
 	// several emitters of (mostly) one type that disagree on Stateful, opened and closed all
 	// along the history, with subscriptions arriving in between
 	profEmitters = profile{name: "emitters", maxSteps: 7, minActs: 1, maxActs: 4, gaps: []int{0, 1, 1, 1, 600},
-		kinds: []int{32, 20, 6, 4, 5, 12, 17, 4}, badPct: 15, eagerPct: 70, bufs: []int{0, 1, 2, 16, 16, -1}, bursts: []int{1, 1, 2, 3},
+		kinds: []int{32, 20, 6, 4, 5, 12, 17, 4, 6}, badPct: 15, eagerPct: 70, bufs: []int{0, 1, 2, 16, 16, -1}, bursts: []int{1, 1, 2, 3},
 		disagreePct: 50, sameTypePct: 75, minEms: 2, lateEmsPct: 50}
 )
 
@@ -331,6 +336,10 @@ func genScenario(rt *rapid.T, p profile) *scenario {
 					aimed = true
 					a.B = rapid.IntRange(0, len(sc.Bad)-1).Draw(rt, "badWhich")
 				}
+			case "query":
+				// always possible, whatever is stalled; -1 = the bus query alone
+				aimed = true
+				a.S = rapid.IntRange(-1, nSub-1).Draw(rt, "querySub")
 			}
 			if !aimed {
 				// an emit burst (also the fallback when the drawn kind has no target)
@@ -361,6 +370,10 @@ func genScenario(rt *rapid.T, p profile) *scenario {
 	if len(sc.Bad) > 0 && rapid.IntRange(0, 2).Draw(rt, "finalBad") == 0 {
 		// a refused call racing with the final round of emits and the Close of everything
 		sc.FinalBursts = append(sc.FinalBursts, action{K: "bad", B: rapid.IntRange(0, len(sc.Bad)-1).Draw(rt, "finalBadWhich"), Y: rapid.IntRange(0, 3).Draw(rt, "finalBadY")})
+	}
+	if rapid.IntRange(0, 3).Draw(rt, "finalQuery") == 0 {
+		// a query racing with the final round of emits and the Close of everything
+		sc.FinalBursts = append(sc.FinalBursts, action{K: "query", S: rapid.IntRange(-1, nSub-1).Draw(rt, "finalQuerySub"), Y: rapid.IntRange(0, 3).Draw(rt, "finalQueryY")})
 	}
 	sc.FinalY = rapid.SliceOfN(rapid.SampledFrom([]int{0, 0, 1, 2, 4}), 1, 6).Draw(rt, "finalYields")
 	return sc
@@ -470,7 +483,12 @@ func TestStatefulEmittersDisagree(t *testing.T) { propSchedules(t, profEmitters,
 // the 1 s slow-consumer warning, resolved by resume / Close / double Close / a grant of one
 // read followed by Close; without a stateful type, and with one and a retained event where
 // both emitters of the type, only the first or only the second one asked for Stateful; each
-// shape on a plain bus and on a bus built with a metrics tracer.
+// shape on a plain bus and on a bus built with a metrics tracer; and, at an instant of its
+// own while the Emit is stalled: nothing, a read-only query (Bus.GetAllEventTypes and the slow
+// subscription's Name / Out), the query racing with the Close of the only subscription of an
+// unrelated type, or the query racing with a Subscribe and an Emitter call for an unrelated
+// type - every call other than the stalled Emit has to have returned at the next quiescence
+// point, and the resolution that follows has to release the Emit as in the plain shape.
 func TestBlockedEmitEnumerated(t *testing.T) {
 	name := t.Name()
 	// one rapid "case" per shard carries the whole (sharded) enumeration, so that the
@@ -492,8 +510,14 @@ func enumerateBlocked(t *testing.T, rt *rapid.T, name string) {
 						stateful := stMode != "none"
 						// next to an eager subscriber or not; on a plain bus or on one built with a
 						// metrics tracer
-						for combo := 0; combo < 4; combo++ {
+						for combo := 0; combo < 16; combo++ {
 							withEager, tracer := combo&1 != 0, combo&2 != 0
+							// while the Emit is stalled (its own instant between the burst and the
+							// resolution): nothing; a read-only query (GetAllEventTypes plus the slow
+							// subscription's accessors); the query racing with the Close of the only
+							// subscription of an unrelated type; the query racing with a Subscribe and
+							// an Emitter call for an unrelated type
+							during := []string{"", "query", "query+close-unrelated", "query+open-unrelated"}[combo>>2]
 							idx++
 							// scattered over the shards (the plain index would give a shard the same
 							// few (stMode, withEager, tracer) combinations throughout: the inner loops
@@ -531,6 +555,22 @@ func enumerateBlocked(t *testing.T, rt *rapid.T, name string) {
 								n++
 							}
 							sc.Steps = append(sc.Steps, step{GapMs: 1, Acts: []action{{K: "emit", W: 0, E: 0, N: n}}})
+							// while it is stalled: type C has nothing to do with the stall
+							if during != "" {
+								other := len(sc.Subs)
+								sc.Subs = append(sc.Subs, subSpec{Kind: "single", Types: []int{2}, Buf: 1, Eager: true})
+								acts := []action{{K: "query", S: 0}}
+								switch during {
+								case "query+close-unrelated":
+									sc.Steps = append([]step{{Acts: []action{{K: "sub", S: other}}}}, sc.Steps...)
+									acts = append(acts, action{K: "closeSub", S: other, Y: 1})
+								case "query+open-unrelated":
+									sc.Ems = append(sc.Ems, 2)
+									sc.EmStateful = append(sc.EmStateful, false)
+									acts = append(acts, action{K: "sub", S: other, Y: 1}, action{K: "newEm", E: 2, Y: 2})
+								}
+								sc.Steps = append(sc.Steps, step{GapMs: 1, Acts: acts})
+							}
 							// step 3..: resolution after the gap
 							switch resolve {
 							case "resume":
@@ -547,20 +587,33 @@ func enumerateBlocked(t *testing.T, rt *rapid.T, name string) {
 									step{GapMs: 1, Acts: []action{{K: "resume", S: 0}}})
 							}
 							sc.FinalBursts = []action{{K: "emit", W: 0, E: 0, N: 2}, {K: "emit", W: 1, E: 1, N: 2}}
-							res := bubbleRun(t, rt, sc, fmt.Sprintf("kind=%s buf=%d gap=%d resolve=%s stateful=%v withEager=%v tracer=%v: ", kind, buf, gap, resolve, stMode, withEager, tracer))
+							res := bubbleRun(t, rt, sc, fmt.Sprintf("kind=%s buf=%d gap=%d resolve=%s stateful=%v withEager=%v tracer=%v during-stall=%q: ", kind, buf, gap, resolve, stMode, withEager, tracer, during))
 							stats.CaseEnumerated(name, res.nontrivial, res.labels...)
 							if stats.WantSample(name) {
 								stats.Sample(name, map[string]any{"scenario": sc, "executed": res.trace, "labels": res.labels})
 							}
 							if res.failure != "" {
-								rt.Fatalf("kind=%s buf=%d gap=%d resolve=%s stateful=%v withEager=%v tracer=%v: %s\nexecuted: %s", kind, buf, gap, resolve, stMode, withEager, tracer, res.failure, res.trace)
+								rt.Fatalf("kind=%s buf=%d gap=%d resolve=%s stateful=%v withEager=%v tracer=%v during-stall=%q: %s\nexecuted: %s", kind, buf, gap, resolve, stMode, withEager, tracer, during, res.failure, res.trace)
 							}
 							// the enumeration is only meaningful if the stall really happened
 							stalled := false
+							want := map[string]string{"": "", "query": "query:while-emit-blocked:stall-outlasts-the-step",
+								"query+close-unrelated": "query:while-emit-blocked:stall-outlasts-the-step:next-to-subscribe-close-or-emitter-call",
+								"query+open-unrelated":  "query:while-emit-blocked:stall-outlasts-the-step:next-to-subscribe-close-or-emitter-call"}[during]
+							queried := want == ""
 							for _, l := range res.labels {
 								if l == "emit-blocked-at-quiescence" {
 									stalled = true
 								}
+								if l == want {
+									queried = true
+								}
+								if during != "" && strings.HasPrefix(l, "dropped:") {
+									rt.Fatalf("kind=%s buf=%d resolve=%s during-stall=%q: harness: an action of the enumeration was not executed (%s; executed: %s)", kind, buf, resolve, during, l, res.trace)
+								}
+							}
+							if !queried {
+								rt.Fatalf("kind=%s buf=%d resolve=%s during-stall=%q: harness: the query was not made while the Emit was stalled (executed: %s)", kind, buf, resolve, during, res.trace)
 							}
 							if !stalled {
 								rt.Fatalf("kind=%s buf=%d resolve=%s: harness: the burst of cap+2 events never stalled (executed: %s)", kind, buf, resolve, res.trace)
